@@ -1,6 +1,7 @@
 package main
 
 import (
+	"go/ast"
 	"fmt"
 	"go/token"
 	"go/types"
@@ -451,6 +452,30 @@ func (f *frame) contractCall(callee *ssa.Function, fc *FuncContract, args []SV, 
 	}
 	e.usedContracts[key] = true
 	return res
+}
+
+// isSourceVar: the identifier quoted in an "unknown identifier" message names a variable
+// of the function (it has a debug reference somewhere in its body).
+func (f *frame) isSourceVar(msg string) bool {
+	i := strings.Index(msg, "\"")
+	j := strings.LastIndex(msg, "\"")
+	if i < 0 || j <= i {
+		return false
+	}
+	name := msg[i+1 : j]
+	if k := strings.Index(name, "\""); k >= 0 {
+		name = name[:k]
+	}
+	for _, b := range f.fn.Blocks {
+		for _, in := range b.Instrs {
+			if d, ok := in.(*ssa.DebugRef); ok {
+				if id, ok := d.Expr.(*ast.Ident); ok && id.Name == name {
+					return true
+				}
+			}
+		}
+	}
+	return false
 }
 
 func (f *frame) pureCallee(key string) bool {
@@ -1365,9 +1390,14 @@ func (f *frame) atCallObligations(key string, args []SV, pos token.Pos) {
 			// call site says nothing about this site
 			defer func() {
 				if r := recover(); r != nil {
-					if ce, isCE := r.(contractErr); isCE && strings.Contains(ce.msg, "unknown identifier") && strings.Contains(ce.msg, "#") {
-						ok = false
-						return
+					if ce, isCE := r.(contractErr); isCE && strings.Contains(ce.msg, "unknown identifier") {
+						// a version (x#upd) or a local of the function that is not computed on
+						// the way to this call site: the clause says nothing here.  A name that
+						// is no variable of the function at all stays an error.
+						if strings.Contains(ce.msg, "#") || f.isSourceVar(ce.msg) {
+							ok = false
+							return
+						}
 					}
 					panic(r)
 				}
